@@ -55,7 +55,8 @@ def one(pid, v, repo):
             if os.path.isdir(os.path.join(repo, sub)):
                 shutil.copytree(os.path.join(repo, sub), os.path.join(tmp, sub), ignore=shutil.ignore_patterns('*.pyc', '__pycache__', '*.so', '*.c', '*.cpp', '*.html'))
         if 'patch' in v:
-            r = subprocess.run(['patch', '-p1', '-s', '-d', tmp, '-i', v['patch']], stdout=subprocess.PIPE, stderr=subprocess.STDOUT, text=True)
+            pfile = v['patch'] if os.path.isabs(v['patch']) else os.path.join(HERE, v['patch'])
+            r = subprocess.run(['patch', '-p1', '-s', '-d', tmp, '-i', pfile], stdout=subprocess.PIPE, stderr=subprocess.STDOUT, text=True)
             if r.returncode != 0:
                 return v['name'], 'stale', 'patch does not apply: ' + r.stdout.strip()[-200:]
         elif v.get('shift'):
